@@ -4,6 +4,7 @@ import (
 	"encoding/hex"
 	"encoding/json"
 	"math/big"
+	"strings"
 	"sync"
 	"testing"
 	"unicode/utf8"
@@ -303,7 +304,15 @@ var alnum = []rune("0123456789ABCDEFGHIJKLMNOPQRSTUVWXYZabcdefghijklmnopqrstuvwx
 
 func genStr() *rapid.Generator[strCase] {
 	return rapid.Custom(func(t *rapid.T) strCase {
-		switch rapid.IntRange(0, 7).Draw(t, "kind") {
+		switch rapid.IntRange(0, 8).Draw(t, "kind") {
+		case 8: // one character over and over (zero padding beyond the canonical length, ...)
+			ch := rapid.SampledFrom([]rune{'0', '0', '0', 'z', 'Z', '7', '-', ' '}).Draw(t, "ch")
+			n := rapid.SampledFrom([]int{0, 1, 21, 22, 23, 24, 40, 100, 300}).Draw(t, "replen")
+			s := strings.Repeat(string(ch), n)
+			if rapid.Bool().Draw(t, "tail") {
+				s += string(rapid.SampledFrom(alnum).Draw(t, "tailch"))
+			}
+			return strCase{S: s}
 		case 7: // a sign in front of digits
 			n := rapid.SampledFrom([]int{1, 2, 21, 22, 23}).Draw(t, "signedlen")
 			rs := rapid.SliceOfN(rapid.SampledFrom(alnum), n, n).Draw(t, "d")
